@@ -3,7 +3,9 @@ from .node import Node
 from .expr import Expr, Type, Operator
 from .program import LineNo
 from .utils import parse_data, split_camel
-from .exceptions import ErrorCode as EC, SyntaxError, CompileError
+from .exceptions import (
+    ErrorCode as EC, SyntaxError, CompileError, EvalError,
+)
 
 
 class Stmt(Node):
@@ -36,7 +38,7 @@ class ArrayDimRange(Stmt):
         try:
             return int(round(bound.eval()))
         except (OverflowError, ZeroDivisionError, TypeError,
-                ValueError):
+                ValueError, EvalError):
             # a constant bound that overflows, divides by zero or is
             # not a number
             raise CompileError(
